@@ -121,19 +121,21 @@ theorem read_version_kept (st st' : LogState) (app : Bool) (lines : List Str)
   · simp at hl
 
 /-- **read_version_new**: otherwise the version is `line.strip()[8:-1]` of the first non-blank line starting with
-    `LAMMPS (`, and the date is the date parsed from it. -/
+    `LAMMPS (`, and the date is the date parsed from it; a log without such a line leaves the date as it was (statement
+    audit: third conjunct added — before, nothing was said about the date of a log without banner). -/
 theorem read_version_new (st st' : LogState) (app : Bool) (lines : List Str)
     (hr : readLog st app lines = .ok st') (hv : (startState st app).version = none) :
     st'.version = (firstVersionLine lines).map extractVersion ∧
-      ∀ l, firstVersionLine lines = some l → ∃ d, dateOf (extractVersion l) = .ok d ∧ st'.date = some d := by
+      (∀ l, firstVersionLine lines = some l → ∃ d, dateOf (extractVersion l) = .ok d ∧ st'.date = some d) ∧
+      (firstVersionLine lines = none → st'.date = (startState st app).date) := by
   obtain ⟨_, _, _, hcase⟩ := readLog_ok st st' app lines hr
   rw [passOf_version, hv] at hcase
   simp only [Option.isSome_none, Bool.false_eq_true, if_false] at hcase
-  rcases hcase with ⟨h0, h1, _⟩ | ⟨l, d, hl, hd, h1, h2⟩
+  rcases hcase with ⟨h0, h1, h2⟩ | ⟨l, d, hl, hd, h1, h2⟩
   · rw [h0, h1]
-    exact ⟨rfl, fun l hl => by simp at hl⟩
+    exact ⟨rfl, fun l hl => by simp at hl, fun _ => h2⟩
   · rw [hl, h1]
-    refine ⟨rfl, fun l' hl' => ?_⟩
+    refine ⟨rfl, fun l' hl' => ?_, fun hn => by simp at hn⟩
     simp only [Option.some.injEq] at hl'
     subst hl'
     exact ⟨d, hd, h2⟩
@@ -1294,4 +1296,244 @@ example : ∃ st, ctorCall (some (renderLog demoSpec)) = .ok st ∧
     st.version = some demoSpec.version ∧ st.date = some ⟨2024, 2, 29⟩ :=
   ctor_grammar demoSpec demoSpec_Simple ⟨2024, 2, 29⟩ (by decide)
 
+/-! ## statement audit: non-vacuity — every theorem with hypotheses applied to a concrete, non-trivial value with ALL its
+    hypotheses discharged (the `decide` examples above show conclusions; these show that the hypotheses can be met) -/
+
+section AuditExamples
+
+/-- the demo log (two runs, one cut short) read into a new object. -/
+theorem demo_read : ∃ st1, readLog LogState.empty true (renderLog demoSpec) = .ok st1 :=
+  ⟨_, read_render demoSpec demoSpec_WF (by decide) ⟨2024, 2, 29⟩ (by decide) LogState.empty true⟩
+
+-- `read_append`, `append_concat`, `read_sequence_default`, `read_version_kept`, `read_version_new`: the demo log read
+-- twice (the second read finds the version known, the first finds none).
+example : ∃ (st1 st2 : LogState) (ts : List Table), tablesOf (renderLog demoSpec) = .ok ts ∧
+    st2.sims.map Sim.thermo = st1.sims.map Sim.thermo ++ ts ∧ st1.sims.length = 2 ∧
+    st2.version = st1.version ∧ st1.version = some demoSpec.version := by
+  obtain ⟨st1, h1⟩ := demo_read
+  obtain ⟨st2, h2⟩ : ∃ st2, readLog st1 true (renderLog demoSpec) = .ok st2 :=
+    ⟨_, read_render demoSpec demoSpec_WF (by decide) ⟨2024, 2, 29⟩ (by decide) st1 true⟩
+  obtain ⟨ts, hts, e⟩ := read_append st1 st2 (renderLog demoSpec) h2
+  have hc := append_concat (renderLog demoSpec) st1 st2 st1 h2 h1
+  have hv1 := read_version_new LogState.empty st1 true (renderLog demoSpec) h1 rfl
+  have hlen : st1.sims.length = 2 := by
+    have := read_layout demoSpec.toLayout (toLayout_WF demoSpec demoSpec_WF) _ _ true h1
+    have := congrArg List.length this
+    simp only [↓reduceIte, LogState.empty, length_map, map_nil, nil_append] at this
+    rw [this]; rfl
+  have hver : st1.version = some demoSpec.version := by
+    rw [hv1.1]; decide
+  have hk := read_version_kept st1 st2 true (renderLog demoSpec) h2 (by simp [startState, hver])
+  obtain ⟨ta, tb, _, _, _⟩ := read_sequence_default (renderLog demoSpec) (renderLog demoSpec) st1 st2 h1 h2
+  exact ⟨st1, st2, ts, hts, e, hlen, hk.1, hver⟩
+
+-- `read_stream_again` itself, on a stream the caller left in the middle of the third line.
+example : ∃ (st1 st2 : LogState) (s1 s2 : Stream) (ts : List Table), readLogS LogState.empty true ⟨renderLog demoSpec, 2, 3⟩ = .ok (st1, s1) ∧
+    readLogS st1 true s1 = .ok (st2, s2) ∧ tablesOf (renderLog demoSpec) = .ok ts ∧
+    st2.sims.map Sim.thermo = ts ++ ts := by
+  obtain ⟨st1, h1⟩ := demo_read
+  obtain ⟨st2, h2⟩ : ∃ st2, readLog st1 true (renderLog demoSpec) = .ok st2 :=
+    ⟨_, read_render demoSpec demoSpec_WF (by decide) ⟨2024, 2, 29⟩ (by decide) st1 true⟩
+  obtain ⟨s1, hl1, e1⟩ := read_stream LogState.empty true ⟨renderLog demoSpec, 2, 3⟩
+  obtain ⟨s2, hl2, e2⟩ := read_stream st1 true s1
+  have g1 : readLogS LogState.empty true ⟨renderLog demoSpec, 2, 3⟩ = .ok (st1, s1) := by
+    rw [e1]; show (readLog _ true (renderLog demoSpec)).map _ = _; rw [h1]; rfl
+  have g2 : readLogS st1 true s1 = .ok (st2, s2) := by
+    rw [e2, hl1]; show (readLog st1 true (renderLog demoSpec)).map _ = _; rw [h2]; rfl
+  obtain ⟨ts, hts, e⟩ := read_stream_again LogState.empty st1 st2 ⟨renderLog demoSpec, 2, 3⟩ s1 s2 g1 g2
+  exact ⟨st1, st2, s1, s2, ts, g1, g2, hts, by simpa [LogState.empty] using e⟩
+
+-- `read_input_forms`: the text of the demo log and an open stream over it standing in its third line.
+example : (readInput LogState.empty none (.stream ⟨renderLog demoSpec, 2, 3⟩)).map Prod.fst =
+    (readInput LogState.empty none (.text (joinLines (renderLog demoSpec)))).map Prod.fst :=
+  (read_input_forms LogState.empty none (joinLines (renderLog demoSpec)) ⟨renderLog demoSpec, 2, 3⟩
+    (splitLines_joinLines _ (by decide) (by decide)).symm).2.1
+
+-- `ctor_render`, `ctor_render_text` (all hypotheses, incl. "no `\n` inside a line").
+example : ∃ st, readText LogState.empty true (joinLines (renderLog demoSpec)) = .ok st ∧
+    st.sims.map Sim.thermo = demoSpec.runs.map RunSpec.table ∧ st.version = some demoSpec.version ∧
+    st.date = some ⟨2024, 2, 29⟩ :=
+  ctor_render_text demoSpec demoSpec_WF (by decide) (by decide) ⟨2024, 2, 29⟩ (by decide)
+example : ∃ st, ctorCall (some (renderLog demoSpec)) = .ok st ∧ st.sims.map Sim.thermo = demoSpec.runs.map RunSpec.table :=
+  let ⟨st, h1, h2, _⟩ := ctor_render demoSpec demoSpec_WF (by decide) ⟨2024, 2, 29⟩ (by decide); ⟨st, h1, h2⟩
+
+-- `read_then_flatten_all`, `gen_read_tables`, `read_tables` on the layout of the demo log.
+example : ∃ st, readLog LogState.empty true demoSpec.toLayout.lines = .ok st ∧
+    flattenStyle (fun _ : List Str => (0 : Int)) "all".toList (st.sims.map (fun s => s.thermo.rows)) =
+      .ok [["0".toList, "300.5".toList, "-13.44".toList], ["10".toList, "290".toList],
+           ["10".toList, "1e-3".toList], ["20".toList, "nan".toList]] := by
+  obtain ⟨st, h⟩ := demo_read
+  refine ⟨st, h, ?_⟩
+  rw [read_then_flatten_all demoSpec.toLayout (toLayout_WF demoSpec demoSpec_WF) st (by decide) h]
+  decide
+example : readBlocks (nonBlank demoLayout.lines)
+    (Gen.LogSrc.finish (demoLayout.lines.foldl Gen.LogSrc.step (Gen.LogSrc.init false))).thermoHeaders
+    (Gen.LogSrc.finish (demoLayout.lines.foldl Gen.LogSrc.step (Gen.LogSrc.init false))).thermoFooters =
+      .ok (demoLayout.runs.map Run.table) := gen_read_tables demoLayout demoLayout_WF false
+example : thermoTables (passOf LogState.empty true demoLayout.lines) demoLayout.lines =
+    .ok [⟨["Step".toList, "Temp".toList], [["0".toList, "300.5".toList], ["10".toList, "290".toList]]⟩] := by
+  rw [read_tables demoLayout demoLayout_WF]; decide
+
+-- `version_date` with a suffix, `splitWs_renderCells` with a non-empty terminated rest, the line theorems.
+example : dateOf ("29".toList ++ ' ' :: ("Feb".toList ++ ' ' :: ("2024".toList ++ " - Update 1".toList))) = .ok ⟨2024, 2, 29⟩ :=
+  version_date "29".toList "Feb".toList "2024".toList " - Update 1".toList 29 2 2024 (by decide) (by decide) (by decide)
+    (Or.inr ⟨' ', "- Update 1".toList, rfl, Or.inl (by decide)⟩) (by decide)
+example : splitWs (renderCells [⟨"  ".toList, "10".toList⟩, ⟨"\t".toList, "2.5".toList⟩] " # x".toList) =
+    ["10".toList, "2.5".toList] ++ splitWs " # x".toList :=
+  splitWs_renderCells _ _ (Or.inr ⟨' ', "# x".toList, rfl, by decide⟩) (by decide)
+example : splitLines "Step Temp\r".toList = ["Step Temp\r".toList] := splitLines_one_line _ (by decide)
+example : splitLines (joinLines ["Step Temp\r".toList, "0 1.5\x0c".toList, []]) = ["Step Temp\r".toList, "0 1.5\x0c".toList, []] :=
+  splitLines_joinLines _ (by decide) (by decide)
+example : readText LogState.empty true (joinLines demoLayout.lines) = readLog LogState.empty true demoLayout.lines :=
+  readText_joinLines _ _ _ (by decide) (by decide)
+example : NoTrigger "  10\t290.5 -1e-3".toList ∧ PerfQuiet "  10\t290.5 -1e-3".toList :=
+  quiet_of_no_capital _ (by decide) (by decide) (by decide)
+
+/-! three overlapping runs (restart on the grid) as the value the `flatten_*` theorems are instantiated on -/
+def demoRuns : List (List (Int × Nat)) := [[(0, 0), (10, 1), (20, 2)], [(20, 3), (30, 4)], [(30, 5), (40, 6)]]
+abbrev stepOf : Int × Nat → Int := fun r => r.1
+
+example : ∃ res, flattenFirst stepOf demoRuns = some res ∧ (10, 1) ∈ res ∧ (20, 3) ∉ res := by
+  obtain ⟨res, h, _, hm⟩ := flatten_first stepOf [(0, 0), (10, 1), (20, 2)] [[(20, 3), (30, 4)], [(30, 5), (40, 6)]] (by decide)
+  have h' : some res = some [(0, 0), (10, 1), (20, 2), (30, 4), (40, 6)] := h.symm.trans (by decide)
+  cases h'
+  exact ⟨_, h, by decide, by decide⟩
+example : ∃ res, flattenLast stepOf demoRuns = some res ∧ res.Sublist demoRuns.flatten :=
+  let ⟨res, h, hs, _⟩ := flatten_last stepOf [(0, 0), (10, 1), (20, 2)] [[(20, 3), (30, 4)], [(30, 5), (40, 6)]] (by decide)
+  ⟨res, h, hs⟩
+example : flattenAll demoRuns = some demoRuns.flatten := flatten_all demoRuns (by decide)
+
+theorem demoRuns_first : flattenFirst stepOf demoRuns = some [(0, 0), (10, 1), (20, 2), (30, 4), (40, 6)] := by decide
+theorem demoRuns_last : flattenLast stepOf demoRuns = some [(0, 0), (10, 1), (20, 3), (30, 5), (40, 6)] := by decide
+
+example : ([(0, 0), (10, 1), (20, 2), (30, 4), (40, 6)] : List (Int × Nat)).Sublist demoRuns.flatten :=
+  flatten_first_sublist stepOf demoRuns _ demoRuns_first
+example : ([(0, 0), (10, 1), (20, 3), (30, 5), (40, 6)] : List (Int × Nat)).Sublist demoRuns.flatten :=
+  flatten_last_sublist stepOf demoRuns _ demoRuns_last
+example : (([(0, 0), (10, 1), (20, 2), (30, 4), (40, 6)] : List (Int × Nat)).map stepOf).Nodup :=
+  flatten_first_once stepOf demoRuns _ demoRuns_first (by decide)
+example : (([(0, 0), (10, 1), (20, 3), (30, 5), (40, 6)] : List (Int × Nat)).map stepOf).Nodup :=
+  flatten_last_once stepOf demoRuns _ demoRuns_last (by decide)
+example : (([(0, 0), (10, 1), (20, 2), (30, 4), (40, 6)] : List (Int × Nat)).map stepOf).Pairwise (· < ·) :=
+  flatten_first_sorted stepOf demoRuns _ demoRuns_first (by decide)
+example : (([(0, 0), (10, 1), (20, 3), (30, 5), (40, 6)] : List (Int × Nat)).map stepOf).Pairwise (· < ·) :=
+  flatten_last_sorted stepOf demoRuns _ demoRuns_last (by decide)
+
+/-- quantifiers over run indices of `demoRuns` reduce to the three runs -/
+theorem demoRuns_idx {P : Nat → List (Int × Nat) → Prop} (h0 : P 0 [(0, 0), (10, 1), (20, 2)])
+    (h1 : P 1 [(20, 3), (30, 4)]) (h2 : P 2 [(30, 5), (40, 6)]) :
+    ∀ (i : Nat) (run : List (Int × Nat)), demoRuns[i]? = some run → P i run := by
+  intro i run hi
+  match i, hi with
+  | 0, hi => cases hi; exact h0
+  | 1, hi => cases hi; exact h1
+  | 2, hi => cases hi; exact h2
+  | (n + 3), hi => simp [demoRuns] at hi
+
+-- `flatten_first_earliest`: step 30 is printed by runs 1 and 2; the row kept is the one of run 1.
+example : ((30, 4) : Int × Nat) ∈ [((20, 3) : Int × Nat), (30, 4)] :=
+  flatten_first_earliest stepOf demoRuns _ demoRuns_first (30, 4) (by decide) 1 _ rfl ⟨(30, 4), by decide, rfl⟩
+    (fun j run' hj hr => by
+      have : j = 0 := by omega
+      subst this; cases hr; decide)
+-- `flatten_last_latest`: step 20 is printed by runs 0 and 1; the row kept is the one of run 1.
+example : ((20, 3) : Int × Nat) ∈ [((20, 3) : Int × Nat), (30, 4)] :=
+  flatten_last_latest stepOf [(0, 0), (10, 1), (20, 2)] [[(20, 3), (30, 4)], [(30, 5), (40, 6)]] (by decide) _ demoRuns_last
+    (20, 3) (by decide) 1 _ rfl ⟨(20, 3), by decide, rfl⟩
+    (fun j run' hj hr => by
+      match j, hj, hr with
+      | 2, _, hr => cases hr; decide
+      | (n + 3), _, hr => simp at hr)
+
+-- `flatten_first_complete` / `flatten_last_complete`: the runs overlap on the shared grid, so `haligned` holds and every
+-- printed step is in the result.
+example : ∀ (i : Nat) (run : List (Int × Nat)), demoRuns[i]? = some run → ∀ r ∈ run,
+    ∃ r' ∈ ([(0, 0), (10, 1), (20, 2), (30, 4), (40, 6)] : List (Int × Nat)), stepOf r' = stepOf r :=
+  flatten_first_complete stepOf [(0, 0), (10, 1), (20, 2)] [[(20, 3), (30, 4)], [(30, 5), (40, 6)]] (by decide) _ demoRuns_first
+    (demoRuns_idx
+      (fun r _ ⟨j, _, hj, _⟩ => absurd hj (by omega))
+      (fun r hr _ => by
+        simp only [mem_cons, not_mem_nil, or_false] at hr
+        rcases hr with rfl | rfl
+        · exact ⟨0, _, by omega, rfl, (20, 2), by decide, rfl⟩
+        · rename_i h; obtain ⟨j, run', hj, hjr, x, hx, hle⟩ := h
+          have : j = 0 := by omega
+          subst this; cases hjr
+          simp only [mem_cons, not_mem_nil, or_false] at hx
+          rcases hx with rfl | rfl | rfl <;> simp [stepOf] at hle)
+      (fun r hr _ => by
+        simp only [mem_cons, not_mem_nil, or_false] at hr
+        rcases hr with rfl | rfl
+        · exact ⟨1, _, by omega, rfl, (30, 4), by decide, rfl⟩
+        · rename_i h; obtain ⟨j, run', hj, hjr, x, hx, hle⟩ := h
+          match j, hj, hjr with
+          | 0, _, hjr =>
+            cases hjr
+            simp only [mem_cons, not_mem_nil, or_false] at hx
+            rcases hx with rfl | rfl | rfl <;> simp [stepOf] at hle
+          | 1, _, hjr =>
+            cases hjr
+            simp only [mem_cons, not_mem_nil, or_false] at hx
+            rcases hx with rfl | rfl <;> simp [stepOf] at hle))
+
+example : ∀ (i : Nat) (run : List (Int × Nat)), demoRuns[i]? = some run → ∀ r ∈ run,
+    ∃ r' ∈ ([(0, 0), (10, 1), (20, 3), (30, 5), (40, 6)] : List (Int × Nat)), stepOf r' = stepOf r :=
+  flatten_last_complete stepOf [(0, 0), (10, 1), (20, 2)] [[(20, 3), (30, 4)], [(30, 5), (40, 6)]] (by decide) _ demoRuns_last
+    (demoRuns_idx
+      (fun r hr h => by
+        obtain ⟨j, run', hj, hjr, x, hx, hle⟩ := h
+        simp only [mem_cons, not_mem_nil, or_false] at hr
+        rcases hr with rfl | rfl | rfl
+        · exact (demoRuns_idx (P := fun j run' => 0 < j → ∀ x ∈ run', ¬ stepOf x ≤ stepOf ((0, 0) : Int × Nat))
+            (by decide) (by decide) (by decide) j run' hjr hj x hx hle).elim
+        · exact (demoRuns_idx (P := fun j run' => 0 < j → ∀ x ∈ run', ¬ stepOf x ≤ stepOf ((10, 1) : Int × Nat))
+            (by decide) (by decide) (by decide) j run' hjr hj x hx hle).elim
+        · exact ⟨1, _, by omega, rfl, (20, 3), by decide, rfl⟩)
+      (fun r hr h => by
+        obtain ⟨j, run', hj, hjr, x, hx, hle⟩ := h
+        simp only [mem_cons, not_mem_nil, or_false] at hr
+        rcases hr with rfl | rfl
+        · exact (demoRuns_idx (P := fun j run' => 1 < j → ∀ x ∈ run', ¬ stepOf x ≤ stepOf ((20, 3) : Int × Nat))
+            (by decide) (by decide) (by decide) j run' hjr hj x hx hle).elim
+        · exact ⟨2, _, by omega, rfl, (30, 5), by decide, rfl⟩)
+      (fun r hr h => by
+        obtain ⟨j, run', hj, hjr, x, hx, hle⟩ := h
+        exact (demoRuns_idx (P := fun j _ => ¬ 2 < j) (by decide) (by decide) (by decide) j run' hjr hj).elim))
+
+/-! the table-level theorems on two runs with different keyword sets -/
+def demoTab0 : Table := ⟨["Step".toList, "Temp".toList], [["0".toList, "1.5".toList], ["10".toList, "2.5".toList]]⟩
+def demoTabs : List Table :=
+  [demoTab0,
+   ⟨["Step".toList, "Press".toList], [["10".toList, "7".toList], ["20".toList, "8".toList]]⟩]
+
+example : flattenTables "first".toList (demoTabs ++ [⟨["Time".toList], [["0.5".toList]]⟩]) = .error .assert :=
+  flatten_refuses_missing_step _ _ ⟨⟨["Time".toList], [["0.5".toList]]⟩, by decide, by decide, by decide⟩
+example : flattenTables "First".toList demoTabs = .error .value :=
+  flatten_refuses_style _ _ _ [] (by decide) (by decide)
+example : flattenTables "First".toList [demoTab0] = .ok demoTab0 :=
+  flatten_single _ _ (Or.inr (by decide))
+example : (unionCols demoTabs).Nodup ∧ unionCols demoTabs = ["Step".toList, "Temp".toList, "Press".toList] :=
+  ⟨nodup_unionCols demoTabs (by decide), by decide⟩
+theorem demoTabs_last : flattenTables "last".toList demoTabs = .ok ⟨["Step".toList, "Temp".toList, "Press".toList],
+    [["0".toList, "1.5".toList, "nan".toList], ["10".toList, "nan".toList, "7".toList],
+     ["20".toList, "nan".toList, "8".toList]]⟩ := by decide
+example : (⟨["Step".toList, "Temp".toList, "Press".toList],
+    [["0".toList, "1.5".toList, "nan".toList], ["10".toList, "nan".toList, "7".toList],
+     ["20".toList, "nan".toList, "8".toList]]⟩ : Table).cols = unionCols demoTabs :=
+  flatten_columns "last".toList _ _ [] _ demoTabs_last
+example : ∀ r ∈ ([["0".toList, "1.5".toList, "nan".toList], ["10".toList, "nan".toList, "7".toList],
+     ["20".toList, "nan".toList, "8".toList]] : List (List Str)), r.length = 3 :=
+  flatten_rows_width "last".toList _ _ [] _ demoTabs_last
+example : flattenTables "last".toList demoTabs =
+    (flattenStyle Row.step "last".toList
+      [[⟨0, [("Step".toList, "0".toList), ("Temp".toList, "1.5".toList)]⟩,
+        ⟨10, [("Step".toList, "10".toList), ("Temp".toList, "2.5".toList)]⟩],
+       [⟨10, [("Step".toList, "10".toList), ("Press".toList, "7".toList)]⟩,
+        ⟨20, [("Step".toList, "20".toList), ("Press".toList, "8".toList)]⟩]]).map
+      (fun rs => ⟨unionCols demoTabs, rs.map (projectRow (unionCols demoTabs))⟩) :=
+  flatten_uses_merge_loop "last".toList _ _ [] _ (by decide) (Or.inr (Or.inl rfl)) (Or.inr (by decide)) rfl
+example : ((SimObj.init (some demoTab0) none).setPerf ⟨[], []⟩).keys.Nodup :=
+  (setter_keys_nodup (SimObj.init (some demoTab0) none) (by decide) demoTab0 ⟨[], []⟩).2
+
+end AuditExamples
 end Atomman.C19
